@@ -220,18 +220,25 @@ class Topology(ABC):
         """
         if name not in self.nodes.keys():
             raise TopologyException(f'Node {name} is not in this topology.')
-        for i in self.nodes[name].interface_list:
-            # disconnect if connected to a network service
-            peers = i.get_peers(itype=InterfaceType.ServicePort)
-            if peers:
-                if len(peers) == 1:
-                    # disconnect from its parent service
-                    self.get_parent_element(peers[0]).disconnect_interface(i)
-                else:
-                    raise TopologyException(f'Interface {i.name} has more than one peer, this is a model error.')
+        self._disconnect_from_services(self.nodes[name].interface_list)
 
         self.graph_model.remove_network_node_with_components_nss_cps_and_links(
             node_id=self._get_node_by_name(name=name).node_id)
+
+    def _disconnect_from_services(self, interfaces) -> None:
+        """
+        Disconnect these interfaces, and their child interfaces, from the network services
+        they are connected to (removes the matching ServicePorts and links).
+        """
+        for i in interfaces:
+            for ii in [i] + list(i.interface_list):
+                peers = ii.get_peers(itype=InterfaceType.ServicePort)
+                if peers:
+                    if len(peers) == 1:
+                        # disconnect from its parent service
+                        self.get_parent_element(peers[0]).disconnect_interface(ii)
+                    else:
+                        raise TopologyException(f'Interface {ii.name} has more than one peer, this is a model error.')
 
     def add_facility(self, *, name: str, node_id: str = None, site: str,
                      nstype: ServiceType = ServiceType.VLAN,
@@ -285,15 +292,7 @@ class Topology(ABC):
         if fac.type != NodeType.Facility:
             raise TopologyException(f'{name} is not a Facility node, cannot remove.')
 
-        for i in self.facilities[name].interface_list:
-            # disconnect if connected to a network service
-            peers = i.get_peers(itype=InterfaceType.ServicePort)
-            if peers:
-                if len(peers) == 1:
-                    # disconnect from its parent service
-                    self.get_parent_element(peers[0]).disconnect_interface(i)
-                else:
-                    raise TopologyException(f'Interface {i.name} has more than one peer, this is a model error.')
+        self._disconnect_from_services(self.facilities[name].interface_list)
 
         self.graph_model.remove_network_node_with_components_nss_cps_and_links(
             node_id=self._get_node_by_name(name=name).node_id)
